@@ -57,7 +57,7 @@ mod __verif_c16 {
         std::mem::forget(r);
     }
 
-    // @harness tiers=quick,thorough timeout=900
+    // @harness tiers=thorough timeout=2400
     // @encodes distributed::http_client::parse_response, distributed::http_client::HttpResponse::is_success
     // @bounds wire = "HTTP/1.1 200 OK CRLF Content-Length: 1 CRLF CRLF" + 1 symbolic body byte (CR, LF, NUL, anything)
     // @oracle Ok with status 200, success flag, and the body exactly the byte that followed the header block
